@@ -50,7 +50,8 @@ static void do_sleep(int via, uint64_t us) {
       break;
     case VIA_NANOSLEEP: {
       struct timespec ts = {.tv_sec = us / 1000000, .tv_nsec = (us % 1000000) * 1000};
-      nanosleep(&ts, NULL);
+      struct timespec rem = {77, 77};
+      nanosleep(&ts, (us & 1) ? &rem : NULL); /* with and without the "remaining" argument */
       break;
     }
     case VIA_SLEEP:
@@ -146,7 +147,7 @@ void h_run(void) {
   sim_cfg_t c = sim_config(1, 3, 40, FBIT(F_STALL));
   nthreads = c.threads;
   static const uint64_t durs[] = {0, 300, 999, 1000, 3000, 5000, 7000, 12000, 12000, 25000, 60000, 250000, 1000300, 2007000};
-  const int ndur = sim_tier_thorough() ? 14 : 12;
+  const int ndur = sim_tier_thorough() || wl_pct(15) ? 14 : 12; /* sleeps of a second and more: simulated time is cheap */
   if (wl_pct(22)) {
     run_aligned(c);
     return;
@@ -167,7 +168,7 @@ void h_run(void) {
       for (int k = 0; k < spec[i].nsleeps; k++) {
         spec[i].us[k] = wl_pct(40) ? shared : durs[wl_pick(ndur)];
         spec[i].via[k] = wl_pick(4);
-        if (spec[i].via[k] == VIA_SLEEP && spec[i].us[k] < 1000000) spec[i].via[k] = VIA_FIBER_SLEEP;
+        /* sleep() takes whole seconds: shorter requests become sleep(0) */
         spec[i].pre_us[k] = busy_scenario && wl_pct(60) ? 1000 * wl_int(1, 40) : 0;
         if (spec[i].pre_us[k]) n_busy++;
         if (spec[i].us[k] > longest) longest = spec[i].us[k];
